@@ -12,6 +12,12 @@ def _c(text, ref):
 
 
 CLAIMS = {
+    "C14": _c("Bounded symbolic model checking of the real OverlappingFieldsCanBeMergedRule against a direct transcription of the "
+              "specification's FieldsInSetCanMerge / SameResponseShape over fragment-expanded selection sets: 8 document structures "
+              "(exclusive and non-exclusive parents, spreads, the same fragment reached both ways, mutual recursion, 3-cycles, "
+              "unions) with three symbolic field holes and a symbolic placement order; plus unit models of PairSet, OrderedPairSet "
+              "and do_types_conflict. Assertion: conflict reported iff the specification finds one, and no RecursionError.",
+              "DESIGN.md section 7, C14"),
     "C15": dict(_c("Bounded symbolic model checking of the real coerce_input_value / validate_input_value / value_to_literal / "
               "coerce_input_literal / validate_input_literal / ValuesOfCorrectTypeRule / get_variable_values over 14 input types, 14 "
               "value and literal shapes with symbolic leaves (unbounded ints, floats, short strings, bools, null, Undefined, "
